@@ -157,7 +157,7 @@ impl<'a> Utf32Str<'a> {
         match self {
             Utf32Str::Ascii(bytes) => bytes
                 .iter()
-                .position(|b| !b.is_ascii_whitespace())
+                .position(|&b| !(b as char).is_whitespace())
                 .unwrap_or(0),
             Utf32Str::Unicode(codepoints) => codepoints
                 .iter()
@@ -173,7 +173,7 @@ impl<'a> Utf32Str<'a> {
             Utf32Str::Ascii(bytes) => bytes
                 .iter()
                 .rev()
-                .position(|b| !b.is_ascii_whitespace())
+                .position(|&b| !(b as char).is_whitespace())
                 .unwrap_or(0),
             Utf32Str::Unicode(codepoints) => codepoints
                 .iter()
